@@ -120,7 +120,19 @@ fn build(rules: &[(String, Expr)], plan: &Arc<FaultPlan>) -> Built {
         meta.insert("position".to_string(), Value::Int(i as i128));
         let r = Rule::new(name.clone(), meta, e.clone());
         kept.push(r.clone());
-        b = b.with_rule(r).expect("unique names");
+    }
+    // three ways of adding the same rules in the same order: one by one, all in one batch, a batch after the first rule
+    match rules.len() % 3 {
+        0 => {
+            for r in kept.iter().cloned() {
+                b = b.with_rule(r).expect("unique names");
+            }
+        }
+        1 => b = b.with_rules(kept.clone()).expect("unique names"),
+        _ => {
+            b = b.with_rule(kept[0].clone()).expect("unique names");
+            b = b.with_rules(kept[1..].to_vec()).expect("unique names");
+        }
     }
     for f in make_fns(&descs(), &log, plan) {
         b = b.with_function(f).expect("valid names");
@@ -395,7 +407,7 @@ fn run(ctx: &mut Ctx) {
     // big rulesets (9..80 rules) with unusual rule names
     let odd_names = ["", " ", "rule", "Rule", "rule ", "r\n2", "名前", "0", "facts", "name", "description", "a-b", "__probe"];
     for _ in 0..ctx.tier.of(40, 400) {
-        let n = if rng.chance(1, 8) { 81 + rng.below(240) } else { 9 + rng.below(72) };
+        let n = if rng.chance(1, 40) { 1_000 + rng.below(3_000) } else if rng.chance(1, 8) { 81 + rng.below(440) } else { 9 + rng.below(72) };
         let mut rules = vec![];
         let mut labels = vec![];
         for i in 0..n {
